@@ -1,8 +1,9 @@
 import Kaira.Proto
 import Kaira.Modem
 import Kaira.ModemMem
+import Kaira.Polarity
 namespace Kaira.Verbs
-open Kaira Kaira.Proto Kaira.Modem
+open Kaira Kaira.Proto Kaira.Modem Kaira.Polarity
 
 abbrev Tables := List (String × Table)
 
@@ -37,6 +38,22 @@ def cmod (ts : Tables) (toks : List String) : Option String :=
     match modulate t (mode = "label") bits with
     | some idx => some (showNats idx)
     | none => some "reject"
+  | ["cons", "llr", sc, thr, ls] => do
+    let sc ← rat? sc; let thr ← rat? thr; let ls ← ratList? ls
+    some (showBits (ls.map (llrThresh sc thr)))
+  | ["cons", "fixed", thr, ls] => do
+    let thr ← rat? thr; let ls ← ratList? ls
+    some (showBits (ls.map (fixedLLR thr)))
+  | ["cons", "mindist", refs, ls] => do
+    let refs ← ratList? refs; let ls ← ratList? ls
+    some (showBits (ls.map (minDistLLR refs)))
+  | ["cons", "half", ls] => do
+    let ls ← ratList? ls
+    some (showBits (ls.map halfProb))
+  | ["cons", "rep", r, ls] => do
+    let r ← r.toNat?; let ls ← ratList? ls
+    if r = 0 ∨ ls.length % r ≠ 0 then some "reject" else
+    some (showBits ((List.range (ls.length / r)).map fun i => repetitionLLR ((ls.drop (i * r)).take r)))
   | ["rtml", t, mode, bits] => do
     let t ← findTable ts t; let bits ← bits? bits
     some (match rtMemoryless t (mode = "label") bits with | some o => showBits o | none => "reject")
